@@ -260,6 +260,49 @@ def clapeyron_rule(ctx):
         raise AnalysisError("C12.R7: fewer than 2 concrete material laws found")
 
 
+def exact_compliances(ctx, rule="C12.R11"):
+    """`C_n_inv @ C_n = I` for every positive definite stiffness.  np.linalg.pinv / lstsq discard singular values below rcond * largest one:
+    exact for well-scaled data, silently ZERO for the soft block once the stiffnesses (E A ~ 1e-9 N, E I ~ 1e-28 N m^2 for a filament in SI
+    units; joined in one matrix the cut-off is relative to the largest of all six) span more than ~15 decades.  Provenance of every store to
+    an attribute named *_inv in the laws: the calls it goes through."""
+    rep = ctx.rep
+    mod = ctx.repo.module(MM)
+    n = 0
+    for cls in [c for c in mod.tree.body if isinstance(c, ast.ClassDef)]:
+        for fn in [f for f in cls.body if isinstance(f, ast.FunctionDef)]:
+            binds = {}
+            for w in ast.walk(fn):
+                if isinstance(w, ast.Assign) and len(w.targets) == 1 and isinstance(w.targets[0], ast.Name):
+                    binds.setdefault(w.targets[0].id, []).append(w.value)
+            for st in [w for w in ast.walk(fn) if isinstance(w, ast.Assign) and len(w.targets) == 1 and isinstance(w.targets[0], ast.Attribute)
+                       and dotted(w.targets[0].value) == "self" and w.targets[0].attr.endswith("_inv")]:
+                n += 1
+                C = f"{MM}:{cls.name}.{fn.name}"
+                calls, seen, work = [], set(), [st.value]
+                while work:
+                    e = work.pop()
+                    for x in ast.walk(e):
+                        if isinstance(x, ast.Call):
+                            calls.append(x)
+                        elif isinstance(x, ast.Name) and x.id in binds and x.id not in seen:
+                            seen.add(x.id)
+                            work += binds[x.id]
+                names = [(dotted(c.func) or "").split(".")[-1] for c in calls]
+                lossy = [c for c, nm in zip(calls, names) if nm in ("pinv", "lstsq", "pinvh")]
+                base = st.targets[0].attr[:-4]
+                exact = [c for c, nm in zip(calls, names) if nm in ("inv", "solve") and c.args and norm_src(c.args[0]) in (f"self.{base}", base)]
+                if lossy:
+                    rep.bad(rule, C, st, f"`{norm_src(st)[:70]}` goes through `{norm_src(lossy[0].func)}`, which drops singular values below a relative cut-off: for stiffnesses spanning more than "
+                            f"~15 decades self.{st.targets[0].attr} @ self.{base} is not the identity (the soft block's compliance is silently zero) and the complementary energy is not the Legendre "
+                            "dual of the strain energy", f"{MM}:{st.lineno}")
+                elif exact:
+                    rep.ok(rule, C, f"self.{st.targets[0].attr} = exact inverse of self.{base} (`{norm_src(exact[0])[:40]}`)")
+                else:
+                    rep.ok(rule, C, f"`{norm_src(st)[:60]}`: provenance of the compliance not recognised (no verdict)", verdict="unknown")
+    if n < 2:
+        rep.ok(rule, MM, f"only {n} compliance stores found", verdict="unknown", trivial=True)
+
+
 def r9_by_reference(ctx, rule="C12.R9"):
     """K18 applied to the material laws: a method whose return value is not a freshly built expression (`return self.C_n`, `return _ZEROS`)
     hands out the law's own state.  Consumers in cardillo/rods that bind such a result to a local must not modify it in place.  The rule does
@@ -304,6 +347,8 @@ def r9_by_reference(ctx, rule="C12.R9"):
 
 def run(ctx):
     rep = ctx.rep
+    rep.rule("C12.R11", "the compliances of a law are the EXACT inverses of its stiffnesses (np.linalg.inv / solve of the same block), not a pseudo-inverse with a rank cut-off: the Legendre dual must exist for every positive stiffness, whatever the ratio between axial and bending stiffness", 2)
+    exact_compliances(ctx)
     rep.rule("C12.R10", "the material laws are functions of their arguments: no routine of the laws serves a remembered intermediate (cachetools, closure or instance-attribute memo) whose key omits an argument the intermediate depends on (the reference strains!)", 0)
     from . import c26 as _c26
     _c26.attribute_memos(ctx, "C12.R10", lambda rel: rel == MM)
@@ -495,4 +540,12 @@ MUTANTS += [
 ]
 NEUTRAL += [
     dict(id="c12-n-r10", canary=True, what="Harsch2021 keeps the last stretches on the instance, keyed by both strains", file=MM, old='        self.C_m = np.diag(self.Fi)\n\n    def potential(self, B_Gamma, B_Gamma0, B_Kappa, B_Kappa0):\n        dG = B_Gamma - B_Gamma0\n        lambda_ = norm(B_Gamma)\n        lambda0_ = norm(B_Gamma0)\n', new='        self.C_m = np.diag(self.Fi)\n        self._stretch_key = None\n        self._stretch = None\n\n    def _stretches(self, B_Gamma, B_Gamma0):\n        key = B_Gamma.tobytes() + B_Gamma0.tobytes()\n        if key != self._stretch_key:\n            self._stretch_key = key\n            self._stretch = norm(B_Gamma), norm(B_Gamma0)\n        return self._stretch\n\n    def potential(self, B_Gamma, B_Gamma0, B_Kappa, B_Kappa0):\n        dG = B_Gamma - B_Gamma0\n        lambda_, lambda0_ = self._stretches(B_Gamma, B_Gamma0)\n'),
+]
+
+MUTANTS += [
+    dict(id="c12-r11-seed", canary=True, what="[seeded by sub-agent] Simo1986 builds its compliances from the pseudo-inverse of the joint 6x6 stiffness (rank cut-off relative to the largest entry)", file=MM,
+         old='        self.C_n_inv = np.linalg.inv(self.C_n)\n        self.C_m_inv = np.linalg.inv(self.C_m)\n', new='        C_inv = np.linalg.pinv(np.block([[self.C_n, np.zeros((3, 3))], [np.zeros((3, 3)), self.C_m]]))\n        self.C_n_inv = C_inv[:3, :3]\n        self.C_m_inv = C_inv[3:, 3:]\n', expect="C12.R11"),
+]
+NEUTRAL += [
+    dict(id="c12-n-r11", canary=True, what="Simo1986 builds its compliances with np.linalg.solve(C, I)", file=MM, old='        self.C_n_inv = np.linalg.inv(self.C_n)\n        self.C_m_inv = np.linalg.inv(self.C_m)\n', new='        self.C_n_inv = np.linalg.solve(self.C_n, np.eye(3))\n        self.C_m_inv = np.linalg.solve(self.C_m, np.eye(3))\n'),
 ]
